@@ -399,13 +399,22 @@ func c07Git(env *c07Env, objs []c07Obj, pack []byte, info c07Info, dir string) (
 
 func c07Cfgs() []c07Cfg {
 	var cfgs []c07Cfg
-	for _, st := range []string{"memory", "packed", "packed-ofs", "loose"} {
+	for _, st := range []string{"memory", "packed"} {
 		for _, ref := range []bool{false, true} {
 			for _, w := range []uint{0, 1, 10, 50} {
 				cfgs = append(cfgs, c07Cfg{st, w, ref})
 			}
 		}
 	}
+	// second driver: the OFS_DELTA source pack only matters when deltas are
+	// looked up (window > 0); the loose source differs from the memory one in
+	// how whole objects are read, not in the selection
+	for _, ref := range []bool{false, true} {
+		for _, w := range []uint{1, 10} {
+			cfgs = append(cfgs, c07Cfg{"packed-ofs", w, ref})
+		}
+	}
+	cfgs = append(cfgs, c07Cfg{"loose", 0, false}, c07Cfg{"loose", 10, false})
 	return cfgs
 }
 
@@ -548,7 +557,7 @@ func c07Report(c *fw.Ctx, envs []*c07Env, env *c07Env, objs []c07Obj, cfg c07Cfg
 	c.Fail(key, what+": "+detail+" ["+cfg.String()+" "+bFmtName(env.sha256)+"]", map[string]any{
 		"format": bFmtName(env.sha256), "config": cfg.String(), "request": orig, "minimal_request": mins,
 		"minimal_config": bestCfg.String() + " " + bFmtName(bestEnv.sha256),
-		"replay": "objects = c07Universe(format); packfile.NewEncoder(w, storage, ref).Encode(hashes(request), window); git index-pack --strict; git verify-pack -v"})
+		"replay":         "objects = c07Universe(format); packfile.NewEncoder(w, storage, ref).Encode(hashes(request), window); git index-pack --strict; git verify-pack -v"})
 	return min
 }
 
@@ -570,7 +579,8 @@ func runC07(c *fw.Ctx) {
 	c.Bound("object_formats", []string{"sha1", "sha256"})
 	c.Bound("source_storages", []string{"memory (whole objects)", "filesystem storage over a git-written pack of REF_DELTA entries (deltas are reused)", "the same with OFS_DELTA entries (pack-objects --delta-base-offset)", "filesystem storage over loose objects"})
 	c.Bound("extra_universe", "second driver (c07_extra.go): near-identical 70 KiB and 300 KiB blob pairs, near-identical commit and tag pairs, blobs of 1/16/17/18/19/40 bytes (two of each size from 17), a 21 KiB / 20 KiB incompressible / 19 KiB triple (OFS distance > 16384)")
-	c.Bound("extra_requests", "the pairs, every subset (<=3) of the tiny blobs, the far triple, slices / every other element / a 52-long prefix of the edit chain, the whole universe")
+	c.Bound("extra_requests", "the pairs, six requests of tiny blobs (thorough: every subset <=2 of seven), all tiny blobs, the far triple in both orders, chain[10:30], chain[:52], every other / every tenth missing element of the edit chain (thorough also chain[5:]), the whole universe")
+	c.Bound("extra_configurations", "packed-ofs: window {1,10} x {ofs,ref}; loose: window {0,10} x ofs")
 	c.SetRule("every subset of the universe up to max_subset_size (plus the same list with its first object requested twice for sizes 1-2, plus the whole 60-version chain: in order, reversed, and with a duplicate) x 4 windows x {ofs,ref} x {sha1,sha256} x 2 source storages is encoded with packfile.Encoder; the bytes are read by an independent pack reader (trailer = hash of body, header count = entries, resolved (type,content) set = request, no object twice unless requested twice), and every DISTINCT pack (byte-identical outputs of different configurations are run once) goes to `git index-pack --strict` (names in git's idx = request) and `git verify-pack -v`. distinct = (entries, #deltas, max chain depth, delta kind, has-duplicate) classes.")
 	c.Assume("git index-pack runs inside a repository that holds the whole universe as loose objects, so that --strict link checks pass for sets that are not closed; 'The same object appears twice' from --strict is tolerated only when the request itself names an object twice (plain index-pack must then accept)")
 	t0 := c.Elapsed().Seconds()
@@ -613,7 +623,7 @@ func runC07(c *fw.Ctx) {
 			rev[len(chain)-1-i] = chain[i]
 		}
 		reqs = append(reqs, rev)
-		reqs = append(reqs, c07ExtraRequests(env)...)
+		reqs = append(reqs, c07ExtraRequests(env, c.Thorough())...)
 		for _, r := range reqs {
 			for _, cfg := range cfgs {
 				jobs = append(jobs, job{env, r, cfg})
